@@ -68,6 +68,8 @@ class Canon:
         if h == "call":
             if t[1] in _PLUMB and len(t[2]) == 1:
                 return self.c(t[2][0], depth + 1)
+            if t[1] == "std::option::Option::take" and len(t[2]) == 1:
+                t = ("call", "std::mem::take", t[2])          # the same operation on an Option
             if t[1] in _MAPS and len(t[2]) == 2 and t[2][1][0] == "closure":
                 # `x.map(|v| v)` / `x.map(|v| v.clone())` is x
                 l = self.ctx.F.by_qname.get(t[2][1][1], [])
@@ -98,6 +100,8 @@ class Canon:
             return "%s(%s)" % (t[1], self.c(t[2], depth + 1))
         if h == "cast":
             return "(%s as %s)" % (self.c(t[1], depth + 1), t[2])
+        if h == "agg" and t[2] == "Some" and len(t[3]) == 1 and t[3][0][1][0] == "try" and t[1].endswith("Option"):
+            return self.c(t[3][0][1][1], depth + 1)        # `Some(x?)` in a function returning Option is x
         if h == "agg" and t[2] == "Err":
             return "Err(_)"        # which error is reported is not part of the reference meaning
         if h == "agg":
@@ -120,6 +124,127 @@ class Canon:
             return "%s.await" % self.c(t[1], depth + 1)
         self.open = True
         return str(h)
+
+
+_PRIMS = ("u8", "u16", "u32", "u64", "u128", "usize", "i8", "i16", "i32", "i64", "i128", "isize", "bool", "char", "str", "[T]", "f32", "f64")
+_ORDER_SELECT = ("range", "range_mut", "first", "last", "first_key_value", "last_key_value", "next_back", "nth", "nth_back", "rev", "skip", "skip_while", "take", "take_while",
+                 "min", "max", "min_by", "max_by", "min_by_key", "max_by_key", "find", "find_map", "rfind", "position", "rposition", "binary_search", "binary_search_by",
+                 "binary_search_by_key", "partition_point", "pop_first", "pop_last", "lower_bound", "upper_bound", "split_off", "truncate", "retain", "filter", "step_by",
+                 "saturating_sub", "saturating_add", "wrapping_add", "wrapping_sub", "checked_rem", "rem_euclid", "clamp", "abs_diff")
+_ARITH = {"Add": "Add", "AddWithOverflow": "Add", "AddUnchecked": "Add", "Sub": "Sub", "SubWithOverflow": "Sub", "SubUnchecked": "Sub", "Mul": "Mul", "MulWithOverflow": "Mul", "Div": "Div", "Rem": "Rem",
+          "BitAnd": "BitAnd", "BitOr": "BitOr", "BitXor": "BitXor", "Shl": "Shl", "Shr": "Shr"}
+
+
+def _is_std(q):
+    h = q.lstrip("<&").split("::", 1)[0]
+    return h in ("std", "core", "alloc") or h in _PRIMS or q.startswith(("<std::", "<core::", "<alloc::"))
+
+
+class Skel:
+    """the ingredients of a term that are NOT standard-library plumbing: calls of workspace / third-party functions,
+    maximal field paths over the parameters, workspace constructors and their variants, arithmetic operators, and the
+    constants that are direct operands of those. Two ways of writing the same accessor with different std APIs
+    (`get(i)` vs a bounds check and `[i]`, `contains_key` vs `get().is_some()`, `match` vs `map_or`) have the same
+    ingredients; a changed meaning (another field, a dropped `.next()`, another variant, `+ 1`) does not."""
+
+    def __init__(self, ctx):
+        self.ctx = ctx
+        self.items = set()
+        self.std = set()
+        self.open = False
+
+    def _const_operands(self, args):
+        for a in args:
+            if a[0] == "const":
+                self.items.add("const:%s" % (a[1],))
+
+    def walk(self, t, depth=0):
+        if not isinstance(t, tuple) or not t or depth > 40:
+            return
+        h = t[0]
+        if h == "param":
+            self.items.add("param:p%d" % t[1])
+        elif h in ("var", "upvar"):
+            self.open = True
+        elif h in ("field", "downcast"):
+            names = []
+            u = t
+            while u[0] in ("field", "downcast") or (u[0] == "call" and u[1] in _PLUMB and len(u[2]) == 1):
+                if u[0] == "field":
+                    names.append(u[2])
+                    u = u[1]
+                elif u[0] == "downcast":
+                    names.append("as " + u[2])
+                    u = u[1]
+                else:
+                    u = u[2][0]
+            if u[0] == "param":
+                self.items.add("path:p%d.%s" % (u[1], ".".join(reversed(names))))
+            else:
+                for n in names:
+                    if not n.startswith("as ") and not n.isdigit():
+                        self.items.add("field:%s" % n)
+                self.walk(u, depth + 1)
+        elif h == "call":
+            q = t[1]
+            if q in _PLUMB and len(t[2]) == 1:
+                self.walk(t[2][0], depth + 1)
+                return
+            if _is_std(q):
+                self.std.add(q.rsplit("::", 1)[-1])
+            else:
+                self.items.add("call:%s" % _short(q))
+                self._const_operands(t[2])
+            for a in t[2]:
+                self.walk(a, depth + 1)
+        elif h in ("cdef", "cfn"):
+            if not _is_std(t[1]):
+                self.items.add("c:%s" % _short(t[1]))
+        elif h == "agg":
+            if not (t[1].startswith(("std::option::Option", "std::result::Result", "std::ops::", "std::task::Poll")) or t[1] in ("tuple", "array")):
+                self.items.add("agg:%s::%s" % (t[1].split("::")[-1], t[2]))
+                self._const_operands([x for _, x in t[3]])
+            elif t[2] in ("Some", "Ok", "Err", "None"):
+                self.items.add("wrap:%s" % t[2]) if t[2] in ("Err",) else None
+            for _, x in t[3]:
+                self.walk(x, depth + 1)
+        elif h == "bin":
+            if t[1] in _ARITH:
+                self.items.add("bin:%s" % _ARITH[t[1]])
+                self._const_operands([t[2], t[3]])
+            self.walk(t[2], depth + 1)
+            self.walk(t[3], depth + 1)
+        elif h in ("un", "cast", "try", "residual", "discr", "await"):
+            self.walk(t[2] if h == "un" else t[1], depth + 1)
+        elif h in ("tuple", "array"):
+            for x in t[1]:
+                self.walk(x, depth + 1)
+        elif h == "index":
+            self.walk(t[1], depth + 1)
+            self.walk(t[2], depth + 1)
+        elif h == "closure":
+            l = self.ctx.F.by_qname.get(t[1], [])
+            body = None
+            if len(l) == 1:
+                n = max(0, l[0].argc - 1)
+                body = Inliner(self.ctx).inline_closure(t, [("param", 100 + i, "a%d" % i) for i in range(n)])
+            if body is None:
+                self.open = True
+            else:
+                self.walk(body, depth + 1)
+        elif h == "icall":
+            self.walk(t[1], depth + 1)
+            for a in t[2]:
+                self.walk(a, depth + 1)
+
+
+def _label_is_ws(sc):
+    """a test that is about the meaning (a variant of a parameter path, or the outcome of a workspace call) rather than
+    about how a std container is probed"""
+    cs = [x[1] for x in subterms(sc) if x[0] == "call" and x[1] not in _PLUMB]
+    if not cs:
+        return True
+    return any(not _is_std(q) for q in cs)
 
 
 _CMP = {"lt": "<", "le": "<=", "gt": ">", "ge": ">=", "eq": "==", "ne": "!=", "Lt": "<", "Le": "<=", "Gt": ">", "Ge": ">=", "Eq": "==", "Ne": "!="}
@@ -198,12 +323,17 @@ def rows_of(ctx, f):
         if si is not None and cfg.reachable[bb]:
             sw.append((bb, si))
     out = {}
+    skel = {}
+    stdcalls = set()
+    sk_open = False
+    is_bool = f.locals[0].s == "bool"
     for bb, t in common.ret_values(ctx, f):
         if not cfg.reachable[bb]:
             continue
         if t[0] == "call" and t[1] == "std::ops::FromResidual::from_residual":
             continue        # `?` propagation: the failure of the tested operand, not a value of this function
         labs = []
+        wslabs = []
         for sb, (scrut, edges) in sw:
             if sb == bb:
                 continue
@@ -215,8 +345,43 @@ def rows_of(ctx, f):
                 if sc[0] == "call" and sc[1] == "std::ops::Try::branch":
                     continue        # the success edge of a `?` - already visible as `x?` in the term
                 labs.append(test_label(K, sc, took[0][1]))
+                if _label_is_ws(sc):
+                    pure = not any(x[0] == "call" and x[1] not in _PLUMB for x in subterms(sc))
+                    wslabs.append((labs[-1], pure, sc))
+                else:
+                    S0 = Skel(ctx)
+                    S0.walk(sc)
+                    stdcalls |= S0.std
         for extra, u in _split_option(ctx, t):
-            out.setdefault(" & ".join(sorted(labs + [K.c(x) + "=" + v for x, v in extra])), set()).add(K.c(u))
+            ls = labs + [K.c(x) + "=" + v for x, v in extra]
+            S1 = Skel(ctx)
+            S1.walk(u)
+            ex = [(K.c(x) + "=" + v, not any(y[0] == "call" and y[1] not in _PLUMB for y in subterms(x)), x) for x, v in extra if _label_is_ws(x)]
+            wkey = " & ".join(sorted(l for l, pure, _ in wslabs + ex if pure))
+            conds = sorted(l for l, pure, _ in wslabs + ex if not pure)
+            for _, pure, sc_ in wslabs + ex:
+                if not pure:
+                    S1.walk(sc_)
+            its = skel.setdefault(wkey, set())
+            if is_bool:
+                S1.items -= {"const:0", "const:1"}
+                if u[0] == "const":
+                    its.add("when:%s -> %s" % (" & ".join(conds), u[1]))
+                elif _label_is_ws(u):
+                    its.add("when:%s -> 1" % " & ".join(sorted(conds + [test_label(K, u, [True])])))
+                    its.add("when:%s -> 0" % " & ".join(sorted(conds + [test_label(K, u, [False])])))
+            elif conds:
+                its.add("when:%s" % " & ".join(conds))
+            its.update(S1.items)
+            stdcalls |= S1.std
+            sk_open = sk_open or S1.open
+            if is_bool and not (u[0] == "const"):
+                # a bool function returning a test: the two rows of `if test { true } else { false }`
+                out.setdefault(" & ".join(sorted(ls + [test_label(K, u, [True])])), set()).add("1")
+                out.setdefault(" & ".join(sorted(ls + [test_label(K, u, [False])])), set()).add("0")
+            else:
+                out.setdefault(" & ".join(sorted(ls)), set()).add(K.c(u))
+    rows_of.last = {"skeleton": {k: sorted(v) for k, v in skel.items()}, "std": sorted(stdcalls), "open": sk_open}
     return out, K.open, K.calls
 
 
@@ -296,7 +461,10 @@ def run(ctx, prop):
             continue
         f = ctx.F.body_of(fs[0]) if hasattr(ctx.F, "body_of") else fs[0]
         rows, is_open, calls = rows_of(ctx, f)
+        last = rows_of.last
         ref = {k: set(v) for k, v in e["rows"].items()}
+        if "effects" in e and f.locals[0].s == "()":
+            rows, ref, is_open, calls = {}, {}, False, set()      # a unit function is its effects
         if "effects" in e:
             eff, eo, ec = effects_of(ctx, f)
             rows["<effects>"] = set(eff)
@@ -307,23 +475,46 @@ def run(ctx, prop):
         if rows in alts:
             ctx.ob(R, key, True, "%s: %s" % (e["why"], "; ".join("%s -> %s" % (k or "always", " | ".join(sorted(v))) for k, v in sorted(rows.items())))[:400], f.loc())
             continue
-        foreign = sorted(c for c in calls if c not in vocab)
-        if e.get("strict"):
-            foreign = []        # an accessor whose reference is a plain lookup / projection: any other closed term deviates
         if e.get("closed_world") and rows:
             # a function whose every accepted way of writing it is listed (reference + reviewed alternatives): anything
             # else is reported - its meaning cannot be re-derived from an arbitrary rewrite, and everything that counts
             # weight / membership rests on it
-            is_open, foreign = False, []
-        if is_open or foreign or not rows:
-            ctx.note("%s %s: returned terms are not closed over the table's vocabulary (%s) - not decided" % (R, _short(q), ", ".join(_short(c) for c in foreign[:4]) or "local / closure"))
+            diff = ["[%s] returns %s" % (k or "always", " | ".join(sorted(v))[:200]) for k, v in sorted(rows.items()) if ref.get(k) != v]
+            ctx.ob(R, key, False, "%s is written in none of its reviewed forms (%s): %s" % (_short(q), e["why"], "; ".join(diff)[:500]), f.loc())
+            continue
+        sk = dict(last["skeleton"])
+        rsk = {k: list(v) for k, v in e.get("skeleton", {}).items()}
+        if "effects" in e:
+            SE = Skel(ctx)
+            T = ctx.T(f)
+            for b in f.blocks:
+                if b["t"]["k"] == "call" and "decl" in b["t"]["f"]:
+                    SE.walk(T.call_term(b["t"]))
+            if f.locals[0].s == "()":
+                sk = {}
+                rsk = {}
+            sk["<effects>"] = sorted(SE.items)
+            rsk["<effects>"] = list(e.get("effects_skeleton", []))
+            last = dict(last, open=last["open"] or SE.open, std=sorted(set(last["std"]) | SE.std))
+        newsel = sorted(c for c in set(last["std"]) - set(e.get("std", [])) if c in _ORDER_SELECT)
+        same = {k: set(v) for k, v in sk.items()} == {k: set(v) for k, v in rsk.items()}
+        if same and not newsel:
+            ctx.note("%s %s: written differently from the reference but with the same ingredients (std-level rewrite) - accepted" % (R, _short(q)))
+            ctx.ob(R, key, True, "same ingredients as the reference (%s), another std-level form" % e["why"], f.loc())
+            continue
+        if last["open"] and not newsel:
+            ctx.note("%s %s: a returned value goes through a local or a closure that cannot be read - not decided" % (R, _short(q)))
             ctx.ob(R, key, True, "undecided shape (not reported)", f.loc())
             continue
         diff = []
-        for k in sorted(set(rows) | set(ref)):
-            if rows.get(k) != ref.get(k):
-                diff.append("[%s] returns %s, reference %s" % (k or "always", " | ".join(sorted(rows.get(k, ["nothing"]))), " | ".join(sorted(ref.get(k, ["nothing"])))))
-        ctx.ob(R, key, False, "%s deviates from its reference meaning (%s): %s" % (_short(q), e["why"], "; ".join(diff)[:600]), f.loc())
+        for k in sorted(set(sk) | set(rsk)):
+            a_, r_ = set(sk.get(k, [])), set(rsk.get(k, []))
+            if a_ != r_:
+                diff.append("[%s] %s%s" % (k or "always", ("extra: %s " % sorted(a_ - r_)) if a_ - r_ else "", ("missing: %s" % sorted(r_ - a_)) if r_ - a_ else ""))
+        if newsel:
+            diff.append("selects by position / order with %s where the reference is an exact lookup / projection" % newsel)
+        shown = "; ".join("[%s] returns %s" % (k or "always", " | ".join(sorted(v))[:160]) for k, v in sorted(rows.items()) if ref.get(k) != v)
+        ctx.ob(R, key, False, "%s deviates from its reference meaning (%s): %s -- %s" % (_short(q), e["why"], "; ".join(diff)[:400], shown[:300]), f.loc())
 
 
 RULES = [("P", lambda ctx: run(ctx, ctx.prop))]
